@@ -4,7 +4,7 @@ CFG = dict(
     imports=["Run.RunC13"],
     exhaustive=True,
     rule="real public API (MapBasic::{abs,shift}, MapValidBasic::{vabs,vshift,ffill,ffill_mask,bfill,bfill_mask,fill,"
-         "fill_mask,vclip}, MapValidVec::{vdiff,vpct_change}) at f64 (NaN null), Option<f64>, i32, Option<i32>. "
+         "fill_mask,vclip}, MapValidVec::{vdiff,vpct_change}) at f64 (NaN null), Option<f64>, i32, Option<i32>, and f32 / i64 against the f64 / integer models (generated values are exact in binary32). "
          "Exhaustive: every null pattern over {distinct value, null} up to len 6 (f64; Option types len 5, i32 len 8; "
          "thorough 7/6) x every lag in -len-3..=len+3 and i32::MIN, i32::MAX x every fill kind (omitted, null, non-null) "
          "for shift/vshift/vdiff; alphabet {value, null, zero} up to len 4 x every lag for vpct_change; every pattern up "
@@ -33,7 +33,7 @@ CFG = dict(
                "repeat_n/chain/zip/take/skip/rev/map; the IsNone dictionary instances (f64, Option, integer); IEEE "
                "arithmetic enters only the Run/ instance (PrimFloat) compared with the code, the theorems are over "
                "abstract operations / Z. Three defects repaired by fix: commits (KNOWN_FINDINGS.d/C13.txt). Not "
-               "exercised: f32/i64 element types, Some(NaN) (DESIGN 5.4), integer overflow of x[i]-x[i-n] / abs(i32::MIN) "
+               "exercised: u8/u64/usize/bool element types, Some(NaN) (DESIGN 5.4), integer overflow of x[i]-x[i-n] / abs(i32::MIN) "
                "(DESIGN 5.2), the polars backend.",
     trusted=["the list model of std iterator adaptors (repeat_n, chain, zip, take, skip, rev, map) and of "
              "TrustIter/to_trust as 'yields the items of the wrapped iterator' (its announced length is C09's subject; "
